@@ -6,7 +6,7 @@ from typing import Dict, Optional
 import jax.numpy as jnp
 
 from jaxley.channels import Channel
-from jaxley.solver_gate import save_exp, solve_gate_exponential
+from jaxley.solver_gate import save_exp, solve_gate_exponential, x_over_expm1
 
 
 class HH(Channel):
@@ -96,4 +96,5 @@ class HH(Channel):
 
 
 def _vtrap(x, y):
-    return x / (save_exp(x / y) - 1.0)
+    """x / (exp(x / y) - 1), finite (= y) at x = 0."""
+    return y * x_over_expm1(x / y)
